@@ -166,6 +166,25 @@ pub fn run(ctx: &Ctx) {
         let text = if spaced { format!("{a} {} {b}", body.join(" ")) } else { format!("{a}{}{b}", body.join(" ")) };
         check_phrase(ctx, "S4d-wrapped-value", i, text.trim());
     });
+    // S4e: a COMPLETE valid phrase with something added between its words - the decoration a written-down backup carries
+    // (position numbers, bullets, punctuation, filler words): every added token is a token that is not a list word and
+    // makes the count wrong, so the text is not a BIP-39 phrase; an implementation that skips what it does not recognise
+    // would accept it
+    let extra = ["0", "1", "7", "12", "13", "25", "1.", "1)", "1:", "(1)", "#1", "01", "-", "*", "\u{2022}", ",", ";", ".", "and", "the", "a", "word", "=", "|", "x", "#", "//", "\u{2014}"];
+    let mut s4e: Vec<(usize, usize, usize)> = Vec::new(); for n in lens { for g in 0..=n { for k in 0..extra.len() { s4e.push((n, g, k)); } } }
+    ctx.sweep("S4e-token-added-to-a-complete-phrase", "a valid phrase of every length with one of 28 non-list tokens (numbers, numbered-list markers, bullets, punctuation, filler words) ADDED at every gap including both ends: not a BIP-39 phrase, must be rejected", s4e.len() as u64, |i| {
+        let (n, g, k) = s4e[i as usize]; let idx = valid_indices(ctx.seed, n, 5, None);
+        let mut toks: Vec<&str> = idx.iter().map(|k| w[*k]).collect(); toks.insert(g, extra[k]);
+        check_phrase(ctx, "S4e-token-added-to-a-complete-phrase", i, &toks.join(" "));
+    });
+    // S4f: the same decoration applied to EVERY word (a numbered or bulleted list, one word per line)
+    let decor: [(&str, &str, &str); 14] = [("{k}. ", "", " "), ("{k}) ", "", " "), ("{k}: ", "", " "), ("{k} ", "", " "), ("", " {k}", " "), ("#{k} ", "", " "), ("- ", "", "\n"), ("* ", "", "\n"), ("{k}. ", "", "\n"), ("{k}.\t", "", "\n"), ("", " ,", " "), ("", " ;", "\n"), ("{k0}. ", "", " "), ("({k}) ", "", "\n")];
+    ctx.sweep("S4f-every-word-decorated", "a valid phrase of every length written as a numbered / bulleted list (14 layouts: `1. w`, `1) w`, `1: w`, `1 w`, `w 1`, `#1 w`, `- w`, `* w`, one per line, zero-based, `(1) w`, separated `,` / `;`): the markers are tokens that are not list words, must be rejected", (lens.len() * decor.len()) as u64, |i| {
+        let n = lens[i as usize / decor.len()]; let (pre, post, sep) = decor[i as usize % decor.len()]; let idx = valid_indices(ctx.seed, n, 6, None);
+        let sub = |t: &str, k: usize| t.replace("{k0}", &k.to_string()).replace("{k}", &(k + 1).to_string());
+        let text = idx.iter().enumerate().map(|(k, x)| format!("{}{}{}", sub(pre, k), w[*x], sub(post, k))).collect::<Vec<_>>().join(sep);
+        check_phrase(ctx, "S4f-every-word-decorated", i, &text);
+    });
     // S5: whitespace layout
     let seps = [" ", "  ", "\t", "\n", "\r\n", " \t ", "\u{a0}", "\u{2003}", "\u{3000}", "\u{b}", "\u{c}", "\u{85}", "\u{200b}", ""];
     let edges = ["", " ", "\n", "\t \r\n", "\u{3000}"];
